@@ -172,6 +172,7 @@ def make_params(run, cfg):
     x0 = fresh_vec(run, "x0", "caller", "caller's x0")
     bounds = fresh_vec(run, "bounds", "caller", "caller's bounds")
     g.setdefault("ndim", {})[bounds.ref] = 2
+    g["ndim"][x0.ref] = 1
     ints = {}
     for nm, lo in (("maxcor", 1), ("maxiter", 0), ("maxfun", 1), ("maxls", 1)):
         ints[nm] = run.fresh(nm, I)
